@@ -4,7 +4,7 @@ from typing import Optional
 from ..core import Report
 from ..fjfront import Stl
 from ..pyfacts import Repo
-from ..stlrules import rule_bitorder, rule_closure, rule_extent, rule_alias, rule_scratch, rule_const_fits, rule_jumpword_restore
+from ..stlrules import rule_bitorder, rule_closure, rule_extent, rule_alias, rule_scratch, rule_const_fits, rule_jumpword_restore, rule_byte_class
 
 FILES = ['flipjump/stl/hex/input.fj', 'flipjump/stl/hex/output.fj', 'flipjump/stl/bit/input.fj', 'flipjump/stl/bit/output.fj',
          'flipjump/stl/bit/casting.fj', 'flipjump/stl/casting.fj', 'flipjump/stl/hex/strings.fj', 'flipjump/stl/runlib.fj']
@@ -21,14 +21,15 @@ def check(rep: Report, repo: Optional[Repo] = None) -> None:
     rule_alias(rep, stl, 'C09', FILES, 8)
     rule_const_fits(rep, stl, 'C09', FILES, 13)
     rule_jumpword_restore(rep, stl, 'C09', FILES, 3)
+    rule_byte_class(rep, stl, 'C09', FILES, 8)
     rep.assumptions.append('footprints assume generic position: distinct symbolic operands of a compile-time `==` / `!=` aliasing test denote distinct variables')
-    rep.not_decided.append('decimal/hex conversion correctness, terminators and error branches for all values (value-level)')
+    rep.not_decided.append('decimal/hex conversion arithmetic for all values (value-level); which bytes a parser accepts / stops at / rejects IS decided (BYTE-CLASS)')
 
 
 MANIFEST = dict(
-    technique='own .fj front end: link closure, extents, index-order of the rep-based IO macros; scratch / alias / jump-word typestate / constant-width rules',
+    technique='own .fj front end: link closure, extents, index-order of the rep-based IO macros; scratch (path-sensitive) / alias / jump-word typestate / constant-width rules; finite-domain abstract interpretation of the input parsers (byte classes vs the documented character classes)',
     level_text='Also: scratch initialisation, alias hazards, jump-word give-back on every path (typestate over the macro CFG), constant widths. Static, PARTIAL: closure and extents as for C04; the raw IO macros documented lsb-first walk bits/bytes in ascending order '
-               '(the order C17 pins for the devices). It does NOT decide numeric conversions. One documentation/behaviour mismatch '
+               '(the order C17 pins for the devices). The input parsers are interpreted abstractly over the 256 byte values: the bytes each one accepts, stops at or rejects are unions of the character classes its doc names. It does NOT decide the numeric conversions themselves. One documentation/behaviour mismatch '
                '(bit.input n) is a recorded finding.',
     level_note='Trusted: fjfront. The value-level body of C09 needs execution and is outside this technique family.',
     design_ref='DESIGN.md section 4 C04/C05/C08/C09',
